@@ -7,7 +7,7 @@
 //! associativity and the position of this occurrence.
 //!
 //! For concrete examples, see the [`test`](../tests/index.html) module.
-use super::NormResult;
+use super::{NormError, NormResult};
 use super::resolve;
 use crate::grammar::parse_tree::{
     Alternative, ExprSymbol, Grammar, GrammarItem, NonterminalData, NonterminalString, Symbol,
@@ -212,6 +212,20 @@ fn expand_nonterm(mut nonterm: NonterminalData) -> NormResult<Vec<GrammarItem>> 
 
     lvls.sort_unstable();
     lvls.dedup();
+
+    // Prevalidation only sees associativity attributes written next to a precedence attribute,
+    // and runs before `cfg` removes alternatives: an alternative may still inherit (or end up
+    // on) the lowest level with a non-default associativity. Report it instead of panicking.
+    if let Some((lvl, _, alt)) = alts_with_attr
+        .iter()
+        .find(|(lvl, assoc, _)| Some(lvl) == lvls.first() && *assoc != Assoc::FullyAssoc)
+    {
+        return_err!(
+            alt.span,
+            "cannot set associativity on the first precedence level {}",
+            lvl
+        );
+    }
 
     let rest = &mut alts_with_attr.into_iter();
 
